@@ -30,6 +30,7 @@ UNUSED = 10
 BATCH = 1
 RATE = 1
 UNITF = 1.0
+STAGES = {"clean": 1, "enrich": 2, "publish": 3}
 ZEROF = -0.0
 TAGS = {"alpha", "beta", "gamma", "delta"}
 FROZEN = frozenset(["x-ray", "yankee", "zulu"])
@@ -112,7 +113,7 @@ from . import helpers
 from .helpers import scaled as sc, sort_key as skey, Conf
 from .helpers import hash, format
 from . import consts
-from .consts import UNITF as UNITF_D, ZEROF as ZEROF_D
+from .consts import UNITF as UNITF_D, ZEROF as ZEROF_D, STAGES as STAGES_D
 from .consts import BATCH as BATCH_D, RATE as RATE_D, TAGS as TAGS_D, FROZEN as FROZEN_D
 from .consts import FLAG as FLAG_D, PAIR as PAIR_D, NOTHING as NOTHING_D, ITEMS as ITEMS_D, CONF as CONF_D, NAME as NAME_D
 import extmod
@@ -159,6 +160,10 @@ def leaf_batch():
 def leaf_rate():
     CALLS.append("leaf_rate")
     return "rate=%r" % (RATE_D,)
+
+def leaf_order():
+    CALLS.append("leaf_order")
+    return " > ".join(STAGES_D), next(iter(STAGES_D.items()))
 
 def leaf_unit():
     CALLS.append("leaf_unit")
@@ -242,6 +247,7 @@ def root():
     out["rate"] = dds.keep("/c/rate", leaf_rate)
     out["tags"] = dds.keep("/c/tags", leaf_tags)
     out["unit"] = dds.keep("/c/unit", leaf_unit)
+    out["order"] = dds.keep("/c/order", leaf_order)
     out["li"] = dds.keep("/c/li", leaf_li)
     out["shadow"] = dds.keep("/c/shadow", leaf_shadow)
     out["crlf"] = dds.keep("/c/crlf", leaf_crlf)
@@ -279,7 +285,7 @@ import os, importlib
 shipped = importlib.import_module(os.environ.get("CORPUS_PKG", "corp") + ".helpers").shipped
 '''
 
-ALL = ["/c/plain", "/c/scaled", "/c/items", "/c/flag", "/c/pair", "/c/direct", "/c/kw", "/c/href", "/c/batch", "/c/rate", "/c/tags", "/c/unit", "/c/li", "/c/shadow", "/c/crlf", "/c/method", "/c/clsattr", "/c/reexp", "/c/ext", "/c/args", "/c/args2", "/c/args3", "/c/rt", "/c/dup", "/c/ml", "/c/ann_root", "/c/annotated", "/c/optional", "/c/top_args"]
+ALL = ["/c/plain", "/c/scaled", "/c/items", "/c/flag", "/c/pair", "/c/direct", "/c/kw", "/c/href", "/c/batch", "/c/rate", "/c/tags", "/c/unit", "/c/order", "/c/li", "/c/shadow", "/c/crlf", "/c/method", "/c/clsattr", "/c/reexp", "/c/ext", "/c/args", "/c/args2", "/c/args3", "/c/rt", "/c/dup", "/c/ml", "/c/ann_root", "/c/annotated", "/c/optional", "/c/top_args"]
 # edits: (name, file, old, new, kept paths whose cone contains the edit [besides the root], value must change for these)
 EDITS = [
     ("callee body (transitive)", "corp/helpers.py", "return 10", "return 11", ["/c/scaled", "/c/rt"]),
@@ -287,6 +293,7 @@ EDITS = [
     ("str variable", "corp/consts.py", 'NAME = "n"', 'NAME = "m"', ["/c/annotated", "/c/direct", "/c/rt"]),
     ("list variable", "corp/consts.py", "ITEMS = [1, 2]", "ITEMS = [1, 5]", ["/c/items", "/c/direct", "/c/rt"]),
     ("dict variable", "corp/consts.py", 'CONF = {"k": 1}', 'CONF = {"k": 7}', ["/c/items", "/c/direct", "/c/rt"]),
+    ("items of a dict variable reordered (iteration order is observable)", "corp/consts.py", 'STAGES = {"clean": 1, "enrich": 2, "publish": 3}', 'STAGES = {"publish": 3, "clean": 1, "enrich": 2}', ["/c/order", "/c/rt"]),
     ("bool variable", "corp/consts.py", "FLAG = True", "FLAG = False", ["/c/flag", "/c/direct", "/c/rt"]),
     ("tuple variable", "corp/consts.py", "PAIR = (1, 2)", "PAIR = (1, 9)", ["/c/pair", "/c/direct", "/c/rt"]),
     ("None variable", "corp/consts.py", "NOTHING = None", "NOTHING = 5", ["/c/pair", "/c/direct", "/c/rt"]),
@@ -518,7 +525,7 @@ def edit(d, rel, old, new):
     shutil.rmtree(os.path.join(os.path.dirname(p), "__pycache__"), ignore_errors=True)
 
 
-FUN_OF = {"/c/optional": "optional", "/c/shadow": "leaf_shadow", "/c/ml": "ml_leaf", "/c/crlf": "leaf_crlf", "/c/method": "leaf_method", "/c/clsattr": "leaf_clsattr", "/c/li": "leaf_li", "/c/dup": "dup_leaf", "/c/unit": "leaf_unit", "/c/batch": "leaf_batch", "/c/rate": "leaf_rate", "/c/tags": "leaf_tags", "/c/reexp": "leaf_reexp", "/c/top_args": "with_values", "/c/kw": "leaf_kw", "/c/href": "leaf_href", "/c/direct": "leaf_direct", "/c/plain": "leaf_plain", "/c/scaled": "leaf_scaled", "/c/items": "leaf_items", "/c/flag": "leaf_flag", "/c/pair": "leaf_pair", "/c/ext": "leaf_ext", "/c/args": "with_args:1", "/c/args2": "with_args:2", "/c/args3": "with_args:3", "/c/rt": "with_runtime", "/c/annotated": "annotated", "/c/ann_root": "root"}
+FUN_OF = {"/c/optional": "optional", "/c/shadow": "leaf_shadow", "/c/ml": "ml_leaf", "/c/crlf": "leaf_crlf", "/c/method": "leaf_method", "/c/clsattr": "leaf_clsattr", "/c/li": "leaf_li", "/c/dup": "dup_leaf", "/c/unit": "leaf_unit", "/c/order": "leaf_order", "/c/batch": "leaf_batch", "/c/rate": "leaf_rate", "/c/tags": "leaf_tags", "/c/reexp": "leaf_reexp", "/c/top_args": "with_values", "/c/kw": "leaf_kw", "/c/href": "leaf_href", "/c/direct": "leaf_direct", "/c/plain": "leaf_plain", "/c/scaled": "leaf_scaled", "/c/items": "leaf_items", "/c/flag": "leaf_flag", "/c/pair": "leaf_pair", "/c/ext": "leaf_ext", "/c/args": "with_args:1", "/c/args2": "with_args:2", "/c/args3": "with_args:3", "/c/rt": "with_runtime", "/c/annotated": "annotated", "/c/ann_root": "root"}
 
 
 def main():
